@@ -20,6 +20,7 @@ import json
 import random
 import struct
 import sys
+import zlib
 
 from sparse import Image, pat_bytes
 
@@ -59,7 +60,7 @@ def _gen_name(rng, visor: bool, is_dir: bool, allow_edge: bool):
         return "", _path(rng, rng.choice([1, 2, 5, 9, 14, 23, 40])), False, None
     if k < 0.74:
         return "", _path(rng, rng.choice([lim, lim - 1, lim, rng.randrange(60, lim + 1)])), False, None
-    if k < 0.90 or visor:           # prefix field
+    if k < 0.90 or (visor and rng.random() < 0.5):           # prefix field (visor members: also GNU long names)
         pmax = 150 if visor else 155
         edge = None
         plen = rng.choice([1, 3, 17, 60, pmax - 1, pmax, pmax, rng.randrange(1, pmax + 1)])
@@ -264,6 +265,7 @@ def build(recipe: dict) -> dict:
         im.put_hex(hdr[i], _header(name, m, size, tf, m.get("link", "").encode(), b"" if m["long"] else m["pre"].encode(),
                                    (vis_off, pgs[0], pgs[1], pgs[2]) if visor else None))
         t = {"name": member_name(m), "type": m["type"], "size": size, "sha256": hashlib.sha256(content).hexdigest() if content is not None else None,
+             "crc32": (zlib.crc32(content) & 0xFFFFFFFF) if content is not None else None,
              "mode": m["mode"], "uid": m["uid"], "gid": m["gid"], "mtime": m["mtime"], "uname": m["uname"], "gname": m["gname"],
              "linkname": m.get("link", ""), "hdr": first[i], "offset_data": data_at, "is_visor": visor,
              "text_pgs": pgs[1] if visor else None, "fixup_pgs": pgs[2] if visor else None}
